@@ -57,6 +57,16 @@ def env_for():
     return e
 
 
+def many_scenario(seed):
+    """a manifest of several 8 KiB blocks: 270 utterances whose ids make every manifest line 32 characters long"""
+    rng = rng_for(seed, "C10", 777, 0)
+    U = 270
+    ids = ["utterance-with-a-long-name-%04d" % k for k in range(U)]
+    cfg = {"name": "stft", "bank": {"name": "fbank", "num_filts": 3, "sampling_rate": 8000, "high_hz": 3800.0}, "frame_length_ms": 25, "frame_shift_ms": 10}
+    return {"idx": 777, "ids": ids, "lens": [int(rng.integers(250, 400)) for _ in range(U)], "cfg": cfg, "pre": [{"name": "dither", "coeff": 1.0}], "seed_opt": 5,
+            "containers": ["npy"] * U}
+
+
 def make_scenario(seed, idx, U, si=False):
     rng = rng_for(seed, "C10", idx, 0)
     # ids where a later (pending) id is a substring of an earlier (already listed) one, and the reverse
@@ -122,7 +132,10 @@ def run_tool(scn, d, work, K=0, sig="NONE", workers=0, strace=None, timeout=300)
     cmd = [PY, "-m", "vf.fp_launcher", str(K), sig, log, "--"] + tool_args(scn, d, work, workers)
     if strace:
         cmd = ["strace", "-f", "-y", "-o", strace["out"], "-e", "trace=openat,write,pwrite64,writev"] + strace.get("inject", []) + cmd
-    p = subprocess.Popen(cmd, env=env_for(), stdout=subprocess.PIPE, stderr=subprocess.PIPE, text=True, start_new_session=True, cwd=VERIF)
+    env = env_for()
+    if scn.get("mp_start") and workers:
+        env["VF_MP_START"] = scn["mp_start"]
+    p = subprocess.Popen(cmd, env=env, stdout=subprocess.PIPE, stderr=subprocess.PIPE, text=True, start_new_session=True, cwd=VERIF)
     try:
         out, err = p.communicate(timeout=timeout)
         rc = p.returncode
@@ -472,6 +485,20 @@ def plan(tier, seed):
         for g in range(0, len(faults), per):
             specs.append({"cases": [{"scn": scn, "seed": seed, "faults": faults[g:g + per]}], "timeout": 3000})
         specs.append({"cases": [{"scn": scn, "seed": seed, "faults": "count"}]})
+    # a long manifest (several 8 KiB blocks of 32-character lines): one kill near the end, then the resume
+    scn = many_scenario(seed)
+    rc, wc, n = write_counts(scn, seed)
+    if rc != 0 or not n:
+        specs.append({"cases": [{"scn": scn, "seed": seed, "faults": "count"}], "note": "probe run failed rc=%r" % (rc,)})
+    else:
+        specs.append({"cases": [{"scn": scn, "seed": seed, "faults": [{"mech": "stmt", "K": n - 12, "sig": "SIGKILL", "tag": "many%d" % (n - 12)}]}], "timeout": 3000})
+    if not q:
+        # worker processes started by spawn (the default on macOS / Windows, required with CUDA) instead of fork
+        scn = dict(make_scenario(seed, 0, 5), mp_start="spawn")
+        rc, wc, n = write_counts(scn, seed)
+        if rc == 0 and n:
+            faults = [{"mech": "stmt", "K": K, "sig": "SIGKILL", "workers": 2, "resume_workers": 2, "tag": "spawn%d" % K} for K in sorted({max(2, n // 2), max(2, 2 * n // 3)})]
+            specs.append({"cases": [{"scn": scn, "seed": seed, "faults": faults}], "timeout": 3000})
     # a short-integration computer (state of its own between chunks) with a too-short utterance in the middle
     scn = make_scenario(seed, 100, 3, si=True)
     rc, wc, n = write_counts(scn, seed)
